@@ -43,7 +43,11 @@ fn get_boolean_value(key: DirEntryAttr, attributes: &HashMap<DirEntryAttr, DirEn
     }
 }
 
-fn print_entry(env: &mut Env, item: &HashMap<DirEntryAttr, DirEntryValue>, extended_details: bool) {
+fn print_entry(
+    env: &mut Env,
+    item: &HashMap<DirEntryAttr, DirEntryValue>,
+    extended_details: bool,
+) -> std::io::Result<()> {
     if extended_details {
         let directory_flag = if get_boolean_value(DirEntryAttr::IsDir, &item) {
             "<DIR>"
@@ -58,14 +62,12 @@ fn print_entry(env: &mut Env, item: &HashMap<DirEntryAttr, DirEntryValue>, exten
             directory_flag,
             get_string_value(DirEntryAttr::FullName, &item)
         )
-        .unwrap();
     } else {
         writeln!(
             env.out,
             "{} ",
             get_string_value(DirEntryAttr::FullName, &item)
         )
-        .unwrap();
     }
 }
 
@@ -146,13 +148,19 @@ impl Command for CommandImpl {
                             let item_name = get_string_value(DirEntryAttr::FullName, &item);
 
                             if item_name == file_name {
-                                print_entry(context.env, &item, extended_details);
+                                if let Err(error) =
+                                    print_entry(context.env, &item, extended_details)
+                                {
+                                    return CommandResult::Error(error.to_string());
+                                }
                                 break;
                             }
                         }
                     } else {
                         for item in items {
-                            print_entry(context.env, &item, extended_details);
+                            if let Err(error) = print_entry(context.env, &item, extended_details) {
+                                return CommandResult::Error(error.to_string());
+                            }
                         }
                     }
 
